@@ -324,7 +324,7 @@ def ser_napoleon(doc: Sequence[Dict[str, Any]], templates: Dict[str, Any], numpy
 
 def serialise(doc: Sequence[Dict[str, Any]], fmt: str, templates: Dict[str, Any], host: str = "function") -> Optional[str]:
     try:
-        if host == "property" and fmt in ("google", "numpy") and any(n["t"] == "field" for n in doc):
+        if host in ("property", "attribute") and fmt in ("google", "numpy") and any(n["t"] == "field" for n in doc):
             # napoleon reads the docstring of an attribute / property as "type: description" text, sections are not parsed
             raise NotExpressible("google / numpy attribute docstrings have no sections")
         if fmt == "epytext":
@@ -490,10 +490,13 @@ def observe(html: str) -> Dict[str, Any]:
 PARAMS = "pa, pb, *va, **kw"
 
 
-def make_source(cases: Sequence[Tuple[str, str, str]]) -> str:
-    """cases: (name, host, docstring) with host in function|class.  Real docstrings in real source."""
+def make_source(cases: Sequence[Tuple[Any, ...]]) -> str:
+    """cases: (name, host, docstring[, inlines]) with host in function|class|property|attribute; inlines = {variable:
+    text of the docstring written below its assignment}.  Real docstrings in real source."""
     src: List[str] = []
-    for name, host, ds in cases:
+    for case in cases:
+        name, host, ds = case[:3]
+        inlines = case[3] if len(case) > 3 else {}
         if '"""' in ds or "\\" in ds:
             raise MachineryError("generated docstring cannot be written as a raw triple-quoted string")
         body = "\n".join(("    " + ln) if ln else "" for ln in ds.split("\n"))
@@ -502,8 +505,11 @@ def make_source(cases: Sequence[Tuple[str, str, str]]) -> str:
         elif host == "property":
             body8 = "\n".join(("        " + ln) if ln else "" for ln in ds.split("\n"))
             src.append(f"class {name}:\n    @property\n    def p(self):\n        r\"\"\"\n{body8}\n        \"\"\"\n")
+        elif host == "attribute":
+            src.append(f"class {name}:\n    a = 1\n    r\"\"\"\n{body}\n    \"\"\"\n")
         else:
-            src.append(f"class {name}:\n    r\"\"\"\n{body}\n    \"\"\"\n    def __init__(self, {PARAMS}):\n        pass\n")
+            own = "".join(f"    {v} = 1\n    r\"\"\"{t}\"\"\"\n" for v, t in inlines.items())
+            src.append(f"class {name}:\n    r\"\"\"\n{body}\n    \"\"\"\n{own}    def __init__(self, {PARAMS}):\n        pass\n")
     return "\n".join(src)
 
 
@@ -537,13 +543,14 @@ def render_batch(fmt: str, cases: Sequence[Dict[str, Any]]) -> List[Dict[str, An
     system = make_system(fmt)
     builder = system.systemBuilder(system)
     in_mod = [c for c in cases if c["host"] != "module"]
-    builder.addModuleString(make_source([(f"o{c['id']}", c["host"], c["docstring"]) for c in in_mod]), "m")
+    builder.addModuleString(make_source([(f"o{c['id']}", c["host"], c["docstring"], c.get("inlines", {})) for c in in_mod]), "m")
     for c in cases:
         if c["host"] == "module":
             body = c["docstring"]
             if '"""' in body or "\\" in body:
                 raise MachineryError("generated docstring cannot be written as a raw triple-quoted string")
-            builder.addModuleString(f'r"""\n{body}\n"""\nxc = 1\n', f"mm{c['id']}")
+            own = "".join(f'{v} = 1\nr"""{t}"""\n' for v, t in c.get("inlines", {}).items())
+            builder.addModuleString(f'r"""\n{body}\n"""\n{own}xc = 1\n', f"mm{c['id']}")
     builder.buildModules()
     # messages of the build phase (class / module docstrings are parsed there), attributed to the object whose source
     # lines they point into (messages carry "<module>:<line>:")
@@ -565,15 +572,20 @@ def render_batch(fmt: str, cases: Sequence[Dict[str, Any]]) -> List[Dict[str, An
         build_log = by_obj.get(full, [])
         if c["host"] == "property":
             full += ".p"
+        elif c["host"] == "attribute":
+            full += ".a"
         obj = system.allobjects[full]
         n0 = len(system.log)
+        # an attribute's type is rendered in its header, before its docstring
+        type_stan = epydoc2stan.type2stan(obj) if c["host"] == "attribute" else None
+        type_html = flatten(type_stan) if type_stan is not None else ""
         html = flatten(epydoc2stan.format_docstring(obj))
         attr_html = {}
         for a in c.get("attrs", []):
             ao = system.allobjects.get(f"{full}.{a}")
             if ao is not None:
                 attr_html[a] = flatten(epydoc2stan.format_docstring(ao))
-        res.append({"docstring": obj.docstring, "html": html, "attr_html": attr_html,
+        res.append({"docstring": obj.docstring, "html": html, "attr_html": attr_html, "type_html": type_html,
                     "log": build_log + [m for (_, m) in system.log[n0:]]})
     return res
 
@@ -685,7 +697,19 @@ def judge(rec: Dict[str, Any], fmt: str, docstring: str, r: Dict[str, Any],
         words_ok = False
         if f is as_desc:
             continue
-        if f["where"] == "attribute":
+        if f.get("inline"):
+            # the variable's own docstring: shown with the variable, or reported as ignored
+            iw = word(f["inline"])
+            o = attr_obs.get(arg)
+            if not ((o is not None and iw in o["body"]) or any("Docstring ignored" in m for m in log)):
+                bad.append({"invariant": "InlineDocstringShownOrReported", "field": {"index": fidx, "kind": kind, "arg": arg},
+                            "expected": [iw], "observed": o["body"] if o else None, "warnings": log})
+        if f["where"] == "typeline":
+            tw = words_of(parse_html(r.get("type_html", "")).spaced_text())
+            shown += tw
+            if tw == fw:
+                ok = words_ok = True
+        elif f["where"] == "attribute":
             o = attr_obs.get(arg)
             ok = o is not None and o["body"] == fw and o["pre"] == fpre
             words_ok = o is not None and o["body"] == fw
@@ -769,6 +793,12 @@ def tlc_documents(ctx: Ctx, cfg: str, timeout: int = 1500) -> Tuple[List[Dict[st
     return list(docs.values()), templates, r
 
 
+def case_extras(rec: Dict[str, Any]) -> Dict[str, Any]:
+    """attributes documented by var-like fields of a class / module docstring, and their own (inline) docstrings"""
+    return {"attrs": [f["arg"] for f in rec["fields"] if f["where"] == "attribute"],
+            "inlines": {f["arg"]: word(f["inline"]) for f in rec["fields"] if f.get("inline")}}
+
+
 def work(args: Tuple[str, List[Dict[str, Any]], Dict[str, Any]]) -> Dict[str, Any]:
     """One batch: serialise, render with the real pipeline, judge.  Runs in a worker process."""
     fmt, recs, templates = args
@@ -779,8 +809,7 @@ def work(args: Tuple[str, List[Dict[str, Any]], Dict[str, Any]]) -> Dict[str, An
         if ds is None:
             skipped += 1
             continue
-        attrs = [f["arg"] for f in rec["fields"] if f["where"] == "attribute"]
-        cases.append({"id": i, "host": rec["host"], "docstring": ds, "attrs": attrs})
+        cases.append({"id": i, "host": rec["host"], "docstring": ds, **case_extras(rec)})
         kept.append(rec)
     out: Dict[str, Any] = {"fmt": fmt, "rendered": 0, "skipped": skipped, "bad": [], "parse_errors": [], "sample": None,
                            "reported": [], "nreported": 0, "nparse": 0}
@@ -966,109 +995,8 @@ def ep_check(args: List[Dict[str, Any]]) -> Dict[str, Any]:
 
 
 # =============================================================================== known findings (Python twins)
-VARLIKE = ("ivar", "cvar", "var")
-NAPOLEON_UNFIXED = ("ivar", "raise", "raises", "except", "warn", "warns")   # sections converted without _fix_field_desc
-
-
-def _doc(w: Dict[str, Any]) -> List[Dict[str, Any]]:
-    return w["rec"]["doc"]
-
-
-def kf_rst_lone_title(w: Dict[str, Any]) -> bool:
-    """reST: the docstring starts with a section title that is the only top-level one; exactly the words of that
-    title (and of a lone sub-section title right below it) are missing from the description, nothing else."""
-    d = _doc(w)
-    if not (w["invariant"] == "BodyText" and w["format"] == "restructuredtext" and d and d[0]["t"] == "head"
-            and d[0]["level"] == 1 and sum(1 for n in d if n["t"] == "head" and n["level"] == 1) == 1):
-        return False
-    exp, obs = w["failed"]["expected"], w["failed"]["observed"]
-    title = [word(i) for i in d[0]["w"]]
-    if obs == exp[len(title):]:
-        return True
-    if len(d) > 1 and d[1]["t"] == "head" and sum(1 for n in d if n["t"] == "head" and n["level"] == 2) == 1:
-        sub = [word(i) for i in d[1]["w"]]
-        return obs == exp[len(title) + len(sub):]
-    return False
-
-
-def kf_var_field_in_function(w: Dict[str, Any]) -> bool:
-    """an ivar / cvar / var field in the docstring of a function: neither shown nor reported"""
-    f = w["failed"].get("field") or {}
-    return w["invariant"] == "FieldShownOrReported" and f.get("kind") in VARLIKE and f.get("where") == "row" \
-        and w["rec"]["host"] == "function"
-
-
-def kf_duplicate_named_field(w: Dict[str, Any]) -> bool:
-    """keyword / ivar / cvar / var field whose name is documented again by a later field of the same kind: the earlier
-    text is replaced without a warning (for @param the same situation is reported)"""
-    f = w["failed"].get("field") or {}
-    if w["invariant"] != "FieldShownOrReported" or f.get("kind") not in ("keyword",) + VARLIKE:
-        return False
-    later = w["rec"]["fields"][f["index"] + 1:]
-    return any(g["kind"] == f["kind"] and g["arg"] == f["arg"] for g in later)
-
-
-def kf_napoleon_literal_after_one_line(w: Dict[str, Any]) -> bool:
-    """google / numpy: an entry of a Raises / Warns / Attributes section whose description is a one-line paragraph
-    ending in '::' followed by its literal block.  The conversion to reST does not keep the block indented relative to
-    the paragraph (parameters are handled), so the block is parsed as markup; a ':return:' line inside it even replaces
-    the real return field."""
-    if w["format"] not in ("google", "numpy") or w["invariant"] not in ("FieldShownOrReported", "FieldTextExact"):
-        return False
-    d = _doc(w)
-    culprits = [i for i, n in enumerate(d) if n["t"] == "field" and n["kind"] in NAPOLEON_UNFIXED
-                and i + 2 < len(d) and d[i + 2]["t"] == "lit" and d[i + 1]["style"] not in ("plain",)]
-    if not culprits:
-        return False
-    f = w["failed"].get("field")
-    if f is None:
-        return True
-    fields = [n for n in d if n["t"] == "field"]
-    me = fields[f["index"]]
-    if any(d[i] is me for i in culprits):
-        return True
-    # collateral: the literal template that contains a ':return:' line overwrites the return field
-    return f["kind"] in ("return", "returns") and any(d[i + 2]["var"] == 3 for i in culprits)
-
-
-def _field_body(w: Dict[str, Any]) -> List[Dict[str, Any]]:
-    """nodes of the failing field's body"""
-    f = w["failed"].get("field") or {}
-    regs = regions(_doc(w))
-    return regs[f["index"] + 1][1:] if "index" in f and f["index"] + 1 < len(regs) else []
-
-
-def kf_property_return_with_description(w: Dict[str, Any]) -> bool:
-    """@return / :return: in the docstring of a property that also has a description: astbuilder._handlePropertyDef keeps the
-    field only to turn it into the description of a body-less docstring, otherwise it drops it (a 'returns' field is kept)"""
-    f = w["failed"].get("field") or {}
-    return w["invariant"] == "FieldShownOrReported" and w["rec"]["host"] == "property" and f.get("kind") == "return" \
-        and f.get("where") == "row" and w["format"] in ("epytext", "restructuredtext") and bool(w["rec"]["text"])
-
-
-def kf_numpy_see_also_names_then_description(w: Dict[str, Any]) -> bool:
-    """numpy See Also: a line of comma separated names followed by indented description lines - the description is dropped"""
-    f = w["failed"].get("field") or {}
-    body = _field_body(w)
-    return w["invariant"] == "FieldShownOrReported" and w["format"] == "numpy" and f.get("kind") in ("see", "seealso") \
-        and len(body) == 1 and body[0].get("style") == "sacommad"
-
-
-def kf_numpy_free_form_colon(w: Dict[str, Any]) -> bool:
-    """numpy free-form Returns / Yields whose first line contains a colon: 'The result: a value' is shown as
-    'The resulta value' (the two sides of the colon are concatenated)"""
-    f = w["failed"].get("field") or {}
-    body = _field_body(w)
-    return w["invariant"] == "FieldShownOrReported" and w["format"] == "numpy" and f.get("kind") in ("returns", "yields") \
-        and bool(body) and body[0].get("style") == "colon" and numpy_free_form(body)
-
-
-MATCHERS = {"property-return-field-dropped": kf_property_return_with_description,
-            "numpy-see-also-description-after-name-list-dropped": kf_numpy_see_also_names_then_description,
-            "numpy-free-form-returns-colon-swallowed": kf_numpy_free_form_colon,"rst-lone-section-title-dropped": kf_rst_lone_title,
-            "var-field-in-function-docstring-dropped": kf_var_field_in_function,
-            "duplicate-named-field-silently-replaced": kf_duplicate_named_field,
-            "napoleon-literal-after-one-line-entry": kf_napoleon_literal_after_one_line}
+# All C09 findings are fixed in /repo (findings.d/C09.json keeps their history); no open finding, no matcher.
+MATCHERS: Dict[str, Any] = {}
 
 
 # =============================================================================== check
@@ -1359,8 +1287,7 @@ def replay(ctx: Ctx, path: str) -> int:
             bad.append("PipelineConserves")
     else:
         rec = w["rec"]
-        attrs = [f["arg"] for f in rec["fields"] if f["where"] == "attribute"]
-        res = render_batch(w["format"], [{"id": 0, "host": rec["host"], "docstring": w["input"], "attrs": attrs}])[0]
+        res = render_batch(w["format"], [{"id": 0, "host": rec["host"], "docstring": w["input"], **case_extras(rec)}])[0]
         failed = judge(rec, w["format"], w["input"], res)
         bad = sorted({f["invariant"] for f in failed})
         for f in failed:
